@@ -230,6 +230,8 @@ class Index:
         # into a private function does not change what the structural rules see; the originals are kept as .orig
         if inline:
             from . import norm
+            norm.strip_annotations(self)
+            norm.drop_diagnostics(self)
             norm.compose_decorators(self)
             originals = {q: f.node for q, f in self.funcs.items()}
             for q, f in self.funcs.items():
